@@ -19,6 +19,8 @@ def body(ctx):
     start_intervals(ctx, prog, viol)
     process_timers(ctx, prog, viol)
     activity(ctx, prog, viol)
+    import c16
+    c16.timers_and_timeout_around_the_handshake(ctx, prog)   # timers started with the negotiated value, timer events not swallowed during the handshake, connection timeout disarmed afterwards
     roles = {}
     for v in viol:
         roles.setdefault(v[0], v)
@@ -331,12 +333,18 @@ def hb_replay(what):
       if rr != "Ok" || r != "Ok" { bad.push(format!("alive-after-partial-frame:{}:{}", rr, r)); } }
 '''
     elif what == 'tx-activity':
-        desc = 'h=1s: a successful write at 0.7 s postpones the next heartbeat beyond 1.3 s'
+        desc = 'h=1s: a successful write at 0.7 s postpones the next heartbeat beyond 1.3 s; client writes at 0.9 s and 1.8 s do not keep a silent server alive at 2.4 s'
         body = '''
     let mut bad: Vec<String> = Vec::new();
     { let mut i = mk_inner(); i.start_heartbeats(1); sleep_ms(700); i.outbuf.push_heartbeat(); let mut s = VS { data: vec![], pos: 0 };
       let wr = res_name(i.write_to_stream(&mut s)); sleep_ms(600); let r = res_name(i.process_heartbeat_timers());
       if wr != "Ok" || r != "Ok" || i.outbuf.len() != 0 { bad.push(format!("write-postpones:{}:{}:{}", wr, r, i.outbuf.len())); } }
+    // what the client itself writes is no sign of life from the server: silent for 2.4 s => MissedServerHeartbeats even though the client wrote at 0.9 s and 1.8 s
+    { let mut i = mk_inner(); i.start_heartbeats(1); let mut s = VS { data: vec![], pos: 0 };
+      sleep_ms(900); i.outbuf.push_heartbeat(); let w1 = res_name(i.write_to_stream(&mut s));
+      sleep_ms(900); i.outbuf.push_heartbeat(); let w2 = res_name(i.write_to_stream(&mut s));
+      sleep_ms(600); let r = res_name(i.process_heartbeat_timers());
+      if w1 != "Ok" || w2 != "Ok" || r != "MissedServerHeartbeats" { bad.push(format!("own-writes-are-not-server-liveness:{}:{}:{}", w1, w2, r)); } }
 '''
     if body is None:
         return None, None
